@@ -249,3 +249,144 @@ theorem import_conflict_iff (src tgt : KVs) (hs : WfSource src) (ht : WfTarget t
   importKinds_conflict_iff src hs resourceKinds tgt (by decide) (fun _ h => h) ht
 
 end CV.Include
+
+namespace CV.Include
+open CV CV.Val
+
+/-! ## environment layering -/
+
+theorem env_get_append (a b : Env) (k : String) :
+    Env.get (a ++ b) k = match Env.get a k with
+      | some v => some v
+      | none => Env.get b k := by
+  induction a with
+  | nil => simp only [List.nil_append, Env.get]
+  | cons p r ih =>
+    obtain ⟨k', v'⟩ := p
+    simp only [List.cons_append, Env.get]
+    split
+    · rfl
+    · exact ih
+
+theorem env_get_filter_unset (env o : Env) (k : String) (h : Env.get env k = none) :
+    Env.get (o.filter (fun kv => (Env.get env kv.1).isNone)) k = Env.get o k := by
+  induction o with
+  | nil => rfl
+  | cons p r ih =>
+    obtain ⟨k', v'⟩ := p
+    simp only [List.filter]
+    by_cases hk : k = k'
+    · subst hk
+      simp only [h, Option.isNone_none, Env.get, if_true]
+    · cases hp : (Env.get env k').isNone with
+      | true => simp only [Env.get, hk, if_false]; exact ih
+      | false => simp only [Env.get, hk, if_false]; exact ih
+
+/-- `environment.Clone().Merge(envFromFile)`: a variable of the parent environment keeps its value; only
+variables the parent does not define come from the file -/
+theorem envMerge_get (env o : Env) (k : String) :
+    Env.get (envMerge env o) k = match Env.get env k with
+      | some v => some v
+      | none => Env.get o k := by
+  simp only [envMerge, env_get_append]
+  cases h : Env.get env k with
+  | some v => rfl
+  | none => exact env_get_filter_unset env o k h
+
+/-- **include_env_precedence**: the included project is interpolated with the parent environment plus, for
+variables it does not define, what `GetEnvFromFile` reads from the declared `env_file`s — or, when none is
+declared, from `<project directory>/.env` if that file exists -/
+theorem include_env_precedence (W : World) (wd pd : String) (env env' : Env) (ef : List String)
+    (h : includeEnv W wd pd env ef = .ok env') :
+    ∃ efs fromFile, envFiles W wd pd ef = .ok efs ∧ W.envFromFile env efs = .ok fromFile ∧
+      (∀ k v, Env.get env k = some v → Env.get env' k = some v) ∧
+      (∀ k, Env.get env k = none → Env.get env' k = Env.get fromFile k) := by
+  simp only [includeEnv] at h
+  obtain ⟨efs, h1, h⟩ := bind_eq_ok h
+  obtain ⟨ff, h2, h⟩ := bind_eq_ok h
+  cases h
+  refine ⟨efs, ff, h1, h2, ?_, ?_⟩
+  · intro k v hk; rw [envMerge_get, hk]
+  · intro k hk; rw [envMerge_get, hk]
+
+/-- without a declared `env_file` the only candidate is `.env` in the included project directory -/
+theorem include_env_default_dotenv (W : World) (wd pd : String) :
+    envFiles W wd pd [] = .ok (if statFile W (join pd ".env") then [join pd ".env"] else []) := rfl
+
+/-! ## cycles -/
+
+theorem plan_cycle (W : World) (wd L : String) (chain : List String) (r : IncCfg)
+    (h : ∃ p, p ∈ r.path ∧ localAbs L p ∈ chain) : plan W wd L chain r = .err "cycle" := by
+  obtain ⟨p, hp, hc⟩ := h
+  simp only [plan]
+  cases hr : r.path with
+  | nil => rw [hr] at hp; cases hp
+  | cons p0 rest =>
+    simp only
+    have : (localAbs L p0 :: rest.map (localAbs L)).any (fun q => chain.contains q) = true := by
+      rw [List.any_eq_true]
+      refine ⟨localAbs L p, ?_, by simpa using hc⟩
+      rw [hr] at hp
+      rcases List.mem_cons.mp hp with h1 | h2
+      · subst h1; exact List.mem_cons_self
+      · exact List.mem_cons_of_mem _ (List.mem_map.mpr ⟨p, h2, rfl⟩)
+    simp only [this, if_true]
+
+/-- a successful plan loads only files that are not being included already -/
+theorem plan_ok_fresh (W : World) (wd L : String) (chain : List String) (r : IncCfg) (pl : Plan)
+    (h : plan W wd L chain r = .ok pl) : ∀ p, p ∈ pl.paths → p ∉ chain := by
+  simp only [plan] at h
+  split at h
+  · cases h; intro p hp; cases hp
+  · split at h
+    · cases h
+    · rename_i hany
+      cases h
+      intro p hp hc
+      apply hany
+      rw [List.any_eq_true]
+      exact ⟨p, hp, by simpa using hc⟩
+
+/-- **include_cycle_err** (one entry): if any file of an include entry — the included file or one of its
+overrides — is already in the chain of files being included, the entry is an error -/
+theorem includeOne_cycle_err (W : World) (wd L : String) (env : Env) (chain : List String) (model : KVs) (r : IncCfg)
+    (h : ∃ p, p ∈ r.path ∧ localAbs L p ∈ chain) : includeOne W wd L env chain model r = .err "cycle" := by
+  simp only [includeOne, plan_cycle W wd L chain r h, bind_err]
+
+/-- **include_cycle_err**: a document whose first include entry closes a cycle is rejected, whatever the file
+system, the environment files and the other entries are -/
+theorem include_cycle_err (W : World) (wd L : String) (env : Env) (chain : List String) (model : KVs)
+    (r : IncCfg) (rs : List IncCfg) (hcfg : loadIncludeConfig (lookup "include" model) = .ok (r :: rs))
+    (h : ∃ p, p ∈ r.path ∧ localAbs L p ∈ chain) : applyInclude W wd L env chain model = .err "cycle" := by
+  simp only [applyInclude, hcfg, bind_ok, includeAll, includeOne_cycle_err W wd L env chain model r h, bind_err]
+
+/-- a file that includes itself (cycle of length 1), short syntax, absolute path -/
+example (W : World) : applyInclude W "/p" "/p" [] ["/p/compose.yaml"]
+    [("include", .seq [.str "/p/compose.yaml"]), ("services", .map [])] = .err "cycle" := by
+  apply include_cycle_err W "/p" "/p" [] ["/p/compose.yaml"] _ { path := ["/p/compose.yaml"] } []
+  · rfl
+  · exact ⟨"/p/compose.yaml", List.mem_cons_self, by simp [localAbs, isAbs]⟩
+
+/-! ## which directory the included project is anchored in -/
+
+/-- **include_paths_anchor**: the working directory handed to the sub-load (`relwd`, against which the included
+model's relative paths are resolved first) and the included project directory (`projDir`: local loader of nested
+includes, place of the default `.env`) -/
+theorem include_paths_anchor (W : World) (wd L : String) (chain : List String) (r : IncCfg) (pl : Plan)
+    (p0 : String) (rest : List String) (hp : r.path = p0 :: rest) (h : plan W wd L chain r = .ok pl) :
+    pl.paths = (p0 :: rest).map (localAbs L) ∧
+    (r.projectDirectory = "" → pl.projDir = dir (localAbs L p0) ∧ pl.relwd = localDir W L (localAbs L p0)) ∧
+    (r.projectDirectory ≠ "" → isAbs r.projectDirectory = true →
+        pl.projDir = r.projectDirectory ∧ pl.relwd = r.projectDirectory) ∧
+    (r.projectDirectory ≠ "" → isAbs r.projectDirectory = false →
+        pl.projDir = join wd r.projectDirectory ∧ pl.relwd = localDir W L r.projectDirectory) := by
+  simp only [plan, hp] at h
+  split at h
+  · cases h
+  · cases h
+    refine ⟨rfl, ?_, ?_, ?_⟩
+    · intro hpd; simp [resolveFirst, hpd]
+    · intro hpd habs; simp [resolveFirst, hpd, habs]
+    · intro hpd habs; simp [resolveFirst, hpd, habs]
+
+end CV.Include
